@@ -117,6 +117,34 @@ theorem mode_after_context_left_by_exception (s : MSt) (o : Op) (i : Bool) :
     (mstep (mstep s .exit).1 (.mutate o i)).2 = true ∧ (mstep (mstep s .exit).1 (.mutate o i)).1.disk = s.disk :=
   mutator_refused_elsewhere _ o i (by simp [mstep, MSt.writable])
 
+theorem mrun_append (s : MSt) (a b : List MOp) : mrun s (a ++ b) = mrun (mrun s a) b := by
+  induction a generalizing s with
+  | nil => rfl
+  | cons x xs ih => simp only [List.cons_append, mrun]; exact ih _
+
+/-- nesting does not help: however contexts were entered, re-entered and nested on the object before
+    (`pre` is ANY trace), once an `__exit__` has run the next mutation raises and leaves the file alone —
+    in particular in the outer plain `with` after a nested write-enabled `with` has ended -/
+theorem any_exit_ends_write_access (d : Bytes) (pre : List MOp) (o : Op) (i : Bool) :
+    let s := mrun (MSt.init d) (pre ++ [.exit])
+    (mstep s (.mutate o i)).2 = true ∧ (mstep s (.mutate o i)).1.disk = s.disk := by
+  intro s
+  have hs : s = (mstep (mrun (MSt.init d) pre) .exit).1 := by simp only [s, mrun_append, mrun]
+  rw [hs]
+  exact mutator_refused_elsewhere _ o i (by simp [mstep, MSt.writable])
+
+/-- a nested `__enter__` re-opens the file in the mode pending at that moment: entered plainly inside a
+    plain context it is read-only, whatever was open before -/
+theorem nested_plain_enter_is_read_only (s : MSt) (hm : s.mode = false) (o : Op) (i : Bool) :
+    (mstep (mstep s .enter).1 (.mutate o i)).2 = true ∧ (mstep (mstep s .enter).1 (.mutate o i)).1.disk = s.disk := by
+  have e := enter_effect s
+  have hw : (mstep s .enter).1.writable = false := by simp [MSt.writable, e.1, hm]
+  have := mutator_refused_elsewhere _ o i hw
+  exact ⟨this.1, this.2.trans e.2.2.2⟩
+
+example (d : Bytes) (o : Op) : (mstep (mrun (MSt.init d) [.enter, .allowWrite, .enter, .exit]) (.mutate o false)).2 = true :=
+  (any_exit_ends_write_access d [.enter, .allowWrite, .enter] o false).1
+
 /-- no read operation ever changes the bytes, in any mode -/
 theorem readers_pure (s : MSt) (impl nobj : Bool) : (mstep s (.read impl nobj)).1.disk = s.disk := by
   simp only [mstep]; repeat' split
